@@ -179,14 +179,15 @@ def soft_sign_tabulated(repo: Repo, ci: ClassInfo, fi: FuncInfo):
     modulator's constructor is evaluated (own arithmetic) for its small orders and both labelings, then the soft branch of
     `forward` at every constellation point (noise-free): the LLR of bit j at point i must be positive iff label bit j of
     point i is 0.  Returns (OK | VIOLATION, detail) or (None, reason)."""
-    key = (repo.root if hasattr(repo, "root") else id(repo), ci.file, ci.name)
-    if key in _SOFT_TAB_CACHE:
-        return _SOFT_TAB_CACHE[key]
+    key = (ci.file, ci.name)
+    _cache = repo.__dict__.setdefault("_kv_soft_tab_cache", {})  # on the repository object: a path or id() may be reused by another tree
+    if key in _cache:
+        return _cache[key]
     from ..constfold import PySeq, Unfoldable
     from ..frag import FragRaise, FragReturn, run_fragment
 
     def done(st, d):
-        _SOFT_TAB_CACHE[key] = (st, d)
+        _cache[key] = (st, d)
         return st, d
 
     mc = ci.module.classes.get(ci.name.replace("Demodulator", "Modulator"))
@@ -345,14 +346,15 @@ def hard_nearest_tabulated(repo: Repo, ci: ClassInfo, fi: FuncInfo):
     (own arithmetic) at every constellation point and at four points displaced by 0.3 d_min around it, for the small
     orders, both labelings; the returned bits must be the label of the nearest constellation point.  For the largest
     order only the constellation points themselves are used.  Returns (OK | VIOLATION, detail) or (None, reason)."""
-    key = (repo.root, ci.file, ci.name)
-    if key in _HARD_TAB_CACHE:
-        return _HARD_TAB_CACHE[key]
+    key = (ci.file, ci.name)
+    _hcache = repo.__dict__.setdefault("_kv_hard_tab_cache", {})  # on the repository object: a path may be reused by another tree
+    if key in _hcache:
+        return _hcache[key]
     from ..constfold import PySeq, Unfoldable
     from ..frag import FragRaise, FragReturn, run_fragment
 
     def done(st, d):
-        _HARD_TAB_CACHE[key] = (st, d)
+        _hcache[key] = (st, d)
         return st, d
 
     funcs_d = {nm: f_.node for nm, f_ in ci.module.functions.items()}
